@@ -1068,7 +1068,22 @@ func (m *mon) c18() {
 	retired := map[int]bool{}
 	curServer := map[int]int{}   // node -> goroutine serving it
 	stopAhead := map[int]int{}   // node -> stop payloads sent before its server took its first step
+	// a TunePool or stopAndRemoveAllWorkers call in progress holds workers it has taken out of the
+	// idle list and is about to stop: they are no longer kept. The count is judged outside such calls.
+	retiring := 0
 	for _, ev := range m.s.Log {
+		if ev.Kind == "enter" || ev.Kind == "leave" {
+			if fn := siteFunc(ev.Site); fn == "worker.TunePool" || fn == "worker.stopAndRemoveAllWorkers" {
+				if ev.Kind == "enter" {
+					retiring++
+				} else if retiring > 0 {
+					retiring--
+				}
+			}
+		}
+		if retiring == 0 && live > peak {
+			peak = live
+		}
 		if ev.Kind == "start" && strings.HasPrefix(siteName(ev.Site), "worker.initPoolNode/") {
 			isPool[ev.Tid] = true
 			n := tidNode[ev.Tid]
@@ -1081,9 +1096,6 @@ func (m *mon) c18() {
 				curServer[n] = ev.Tid
 			}
 			live++
-			if live > peak {
-				peak = live
-			}
 		}
 		if ev.Kind == "send" && siteFunc(ev.Site) == "Node.Stop" {
 			n := ev.Owner
@@ -1099,6 +1111,9 @@ func (m *mon) c18() {
 			retired[ev.Tid] = true
 			live--
 		}
+	}
+	if retiring == 0 && live > peak {
+		peak = live
 	}
 	if peak > maxConc+verifPoolSlack {
 		m.add("C18", "pool-too-large", "%d pool goroutines alive at once, largest concurrency configured %d", peak, maxConc)
